@@ -17,7 +17,15 @@ class Sc:
         if uds: self.env['SCCACHE_SERVER_UDS'] = os.path.join(root, 'sock')
         else: self.env['SCCACHE_SERVER_PORT'] = str(port_for(tag))
         self.env['SCCACHE_CONF'] = os.path.join(root, 'no-config')
+        self.env['VERIF_SC_TAG'] = root            # inherited by the server process: lets the census find it
         if env: self.env.update(env)
+    def use_config(self, pp_options):
+        """cache location and preprocessor-cache options through a config file (SCCACHE_DIR would override the table)"""
+        conf = os.path.join(self.root, 'sccache.conf')
+        with open(conf, 'w') as f:
+            f.write(f'[cache.disk]\ndir = "{self.cache}"\nsize = 10737418240\n\n[cache.disk.preprocessor_cache_mode]\n')
+            for k, v in pp_options.items(): f.write(f'{k} = {"true" if v else "false"}\n')
+        self.env['SCCACHE_CONF'] = conf; self.env.pop('SCCACHE_DIR', None)
     def run(self, args, cwd=None, env=None, timeout=120, input=None):
         e = dict(self.env);
         if env: e.update(env)
@@ -41,7 +49,7 @@ class Sc:
             try:
                 if os.path.basename(os.readlink(f'/proc/{p}/exe')) != 'sccache': continue
                 env = open(f'/proc/{p}/environ', 'rb').read().split(b'\0')
-                if (b'SCCACHE_DIR=' + self.cache.encode()) in env and b'SCCACHE_START_SERVER=1' in env: out.append(int(p))
+                if (b'VERIF_SC_TAG=' + self.root.encode()) in env and b'SCCACHE_START_SERVER=1' in env: out.append(int(p))
             except OSError: pass
         return out
     def kill(self):
